@@ -36,7 +36,7 @@ theorem check_tag_source_is_model (prog : Program) (e : Nat) (st : St) (P T1 T2 
         .ok (.ret (some (ofInt .i32 (checkTag P T1 T2).1, lr))) env' st' ∧
       st'.mem = setBlock st.mem bp (writeBytes blkp.bytes op ((checkTag P T1 T2).2.map fun p => (p, Lab.sec))) ∧
       st'.ent = st.ent := by
-  obtain ⟨env', st', lr, hex, hmem, hent⟩ := check_tag_regenerated prog e st P T1 T2 hlen bp op b1 o1 b2 o2 blkp blk1 blk2
+  obtain ⟨env', st', lr, hex, hmem, hent, _⟩ := check_tag_regenerated prog e st P T1 T2 hlen bp op b1 o1 b2 o2 blkp blk1 blk2
     hbp hb1 hb2 hP h1 h2 hlp hl1 hl2 hbbp hbb1 hbb2
   refine ⟨env', st', lr, ?_, ?_, hent⟩
   · rw [hex, checkTag_spec P T1 T2 hlen]
